@@ -121,6 +121,10 @@ def handleGocty : Handler := fun op args =>
     pure (goctyTyRes (impliedType id (← tyOfSexp t)))
   | "gocty.bridge", [t] => do
     pure (goctyTyRes (bridgeType id (← tyOfSexp t)))
+  | "gocty.implied", [t, tab] => do
+    pure (goctyTyRes (impliedType (← normOfSexp tab) (← tyOfSexp t)))
+  | "gocty.bridge", [t, tab] => do
+    pure (goctyTyRes (bridgeType (← normOfSexp tab) (← tyOfSexp t)))
   | "gocty.tocty", [g, ty, tab] => do
     let g ← valOfSexp g; let ty ← Ty.ofSexp ty; let norm ← normOfSexp tab
     pure (if ty.hasOpt then "unmodelled" else goctyValRes (toCty norm g ty))
